@@ -239,6 +239,8 @@ func genCommon(t *rapid.T, s *rt.Spec, o GenOpts) {
 		s.EmitNest = s.Emitters >= 2 && prob(t, "emitnest", 0.5)
 		if prob(t, "emitshared", 0.2) {
 			s.Emitters, s.EmitShared, s.EmitNest = 4, true, false
+		} else if !s.EmitNest && prob(t, "emitprocbase", 0.35) {
+			s.EmitProcBase = true
 		}
 		s.InstrumentD = prob(t, "instrd", o.PInstrD)
 		for i := range s.Tasks {
